@@ -50,7 +50,12 @@ impl OperationControl for Repeat {
 
     fn optimize(self, flags: &ReFlags) -> Operation {
         let operation = self.operation.optimize(flags);
-        let min = if self.min == 0 && operation.matches_empty_string() == MATCHES_ZLS_ANYWHERE {
+        // only for a greedy repeat is one (possibly empty) repetition of a
+        // nullable term as good as none; a reluctant one prefers none
+        let min = if self.min == 0
+            && self.greedy
+            && operation.matches_empty_string() == MATCHES_ZLS_ANYWHERE
+        {
             // turns (a?)* into (a?)+
             1
         } else {
